@@ -110,6 +110,8 @@ def run(ck: Check):
                                          f"(P={P!r}, S={S!r})",
                                          {"strategy": strategy, "atom": atom, "file0": data.hex(), "verdicts": v, "write_fault": k,
                                           "final": run_.final.hex()})
+    from scale import big_frame_and_subdeletion
+    big_frame_and_subdeletion(ck, frame=True, sub=False)
     ex.diff()
     return ck.finish(level="proof", rule=RULE, assumptions=[
         "replace-* and the experimental move: their candidates are taken from the real generators "
